@@ -15,6 +15,7 @@
 package system
 
 import (
+	"math"
 	"reflect"
 	"sync"
 
@@ -136,6 +137,9 @@ func IsValidSystemRule(rule *Rule) error {
 	}
 	if rule.TriggerCount < 0 {
 		return errors.New("negative threshold")
+	}
+	if math.IsNaN(rule.TriggerCount) {
+		return errors.New("NaN threshold")
 	}
 	if rule.MetricType >= MetricTypeSize {
 		return errors.New("invalid metric type")
